@@ -113,3 +113,71 @@ Proof.
     rewrite (last_cons_default f (x :: tl') f x) by discriminate. reflexivity.
   - rewrite last_app_ne by discriminate. reflexivity.
 Qed.
+
+Lemma good_nonempty l : Good l -> l <> [].
+Proof. intros (f & tl & E & _). subst. discriminate. Qed.
+
+Lemma hd_app_ne {A} (a b : list A) d : a <> [] -> hd d (a ++ b) = hd d a.
+Proof. destruct a; [congruence | reflexivity]. Qed.
+
+Definition simple_head (l : list item) : Prop := match l with IId _ :: _ | IOpen :: _ => True | _ => False end.
+
+Lemma wrapped19 t : wf t -> compound t = true -> wrapped LPostfix t = true.
+Proof.
+  intros Hwf Hc. unfold wrapped. rewrite Hc. simpl. rewrite Z.geb_leb. apply Z.leb_le.
+  destruct t as [| | | |u w|o2 a b2]; try discriminate; simpl; [pose proof (op_level_pos u) | pose proof (op_level_pos o2)]; unfold LPostfix; lia.
+Qed.
+
+Theorem print_items_good : forall e, wf e -> lexok e -> forall P,
+  Good (print_items P e) /\ Forall item_ok (print_items P e).
+Proof.
+  induction e as [s|s|b f|t IHt s|o v IHv|o l IHl r IHr]; intros Hwf Hlx P.
+  - split; [apply G_atom; reflexivity | constructor; [exact Hwf | constructor]].
+  - split; [apply G_atom; reflexivity | constructor; [exact Hwf | constructor]].
+  - split; [apply G_atom; reflexivity | constructor; [exact Hwf | constructor]].
+  - destruct Hwf as (Hwt & Hs1 & Hs2). simpl in Hlx. destruct (IHt Hwt Hlx LPostfix) as [Gt Ft].
+    cbn [print_items]. split.
+    + apply G_dot; [exact Gt|].
+      rewrite print_items_split. destruct (compound t) eqn:Ec.
+      * rewrite (wrapped19 t Hwt Ec). rewrite app_assoc, last_app_ne by discriminate. reflexivity.
+      * unfold wrapped. rewrite Ec. simpl. destruct t; try discriminate; try reflexivity.
+        unfold body. cbn [print_items]. rewrite last_app_ne by discriminate. reflexivity.
+    + apply Forall_app. split; [exact Ft | constructor; [split; assumption | constructor]].
+  - destruct Hwf as (Hwv & Hku & Hupd). destruct Hlx as (Hlv & Hlead).
+    assert (B : Good (body (EUn o v)) /\ Forall item_ok (body (EUn o v))).
+    { rewrite body_un. destruct (op_kind o) eqn:Ek.
+      - destruct (IHv Hwv Hlv (LPrefix - 1)) as [Gv Fv]. split; [|constructor; [exact I | exact Fv]].
+        apply G_pre; [exact Gv | exact Ek|]. intro Hu.
+        assert (Hio : is_update o = true) by (destruct o; try discriminate; reflexivity).
+        specialize (Hupd Hio). specialize (Hlead Hu).
+        destruct v as [s| | |t s| |]; try discriminate; [exact I|].
+        cbn [print_items]. simpl in Hlead. destruct Hwv as (Hwt & _). simpl in Hlv.
+        (* leftmost item of a member chain whose base leads with an identifier or "(" *)
+        clear -Hlead Hwt Hlv IHv. 
+        assert (H : forall t, wf t -> lead t = true -> simple_head (print_items LPostfix t)).
+        { clear. induction t as [s0| | |t0 IH0 s0|u w _|o2 a _ b2 _]; intros Hw Hl; try discriminate; try exact I.
+          - cbn [print_items]. destruct Hw as (Hw0 & _). specialize (IH0 Hw0 Hl).
+            destruct (print_items LPostfix t0) as [|i l0]; [destruct IH0|]. destruct i; try destruct IH0; exact I.
+          - rewrite print_items_split, (wrapped19 _ Hw eq_refl). exact I.
+          - rewrite print_items_split, (wrapped19 _ Hw eq_refl). exact I. }
+        specialize (H t Hwt Hlead). destruct (print_items LPostfix t) as [|i l0]; [destruct H|]. destruct i; try destruct H; exact I.
+      - destruct (IHv Hwv Hlv (LPostfix - 1)) as [Gv Fv]. split; [|apply Forall_app; split; [exact Fv | constructor; [exact I | constructor]]].
+        apply G_post; [exact Gv | exact Ek|].
+        assert (Hio : is_update o = true) by (destruct o; try discriminate; reflexivity).
+        specialize (Hupd Hio). destruct v; try discriminate; [exact I|].
+        cbn [print_items]. rewrite last_app_ne by discriminate. exact I.
+      - congruence. }
+    destruct B as [GB FB]. rewrite print_items_split. destruct (wrapped P (EUn o v)).
+    + split; [apply G_paren; exact GB|]. apply Forall_app. split; [constructor; [exact I | constructor]|]. apply Forall_app. split; [exact FB | constructor; [exact I | constructor]].
+    + split; assumption.
+  - destruct Hwf as (Hwl & Hwr & Hk & Hta). destruct Hlx as (Hll & Hlr).
+    assert (B : Good (body (EBin o l r)) /\ Forall item_ok (body (EBin o l r))).
+    { rewrite body_bin. destruct (IHl Hwl Hll (left_lvl o l)) as [Gl Fl]. destruct (IHr Hwr Hlr (right_lvl o r)) as [Gr Fr].
+      split; [apply G_bin; assumption|]. apply Forall_app. split; [exact Fl|]. apply Forall_app. split; [constructor; [exact I | constructor] | exact Fr]. }
+    destruct B as [GB FB]. rewrite print_items_split. destruct (wrapped P (EBin o l r)).
+    + split; [apply G_paren; exact GB|]. apply Forall_app. split; [constructor; [exact I | constructor]|]. apply Forall_app. split; [exact FB | constructor; [exact I | constructor]].
+    + split; assumption.
+Qed.
+
+Lemma good_chain l : Good l -> chain None l = true.
+Proof. intros (f & tl & E & Hs & Hc & _). subst. cbn [chain]. rewrite Hs, Hc. reflexivity. Qed.
